@@ -408,6 +408,19 @@ def eval_split(ctx, case):
     w_parse = [w for w in r.warnings if w.type == MystWarnings.DIRECTIVE_PARSING]
     d = {"warnings": [w.msg for w in r.warnings]}
     if m.tokenize_failed:
+        # whatever survives an unreadable option block (externally supplied defaults at most) has still gone through the directive's option spec
+        from docutils.parsers.rst.directives import flag as _flag
+
+        for k_, v_ in r.options.items():
+            try:
+                conv_ = cls.option_spec[k_]
+                want_ = conv_(None if (conv_ is _flag or not (additional or {}).get(k_)) else (additional or {}).get(k_))
+                ok_ = k_ in (additional or {}) and eq_opts(v_, want_) and type(v_) is type(want_)
+            except Exception:  # noqa: BLE001
+                ok_ = False
+            if not ok_:
+                ctx.violation("options:unvalidated-after-unreadable-block", f"the option block could not be read, yet the result carries {k_!r}: {v_!r}, which is not a value the directive's option spec produced (additional options {additional!r})", case, d)
+                break
         if len(w_format) != 1:
             ctx.violation("warnings:bad-option-block-not-reported-once", "an untokenizable option block must give exactly one warning", case, d)
     else:
